@@ -6,7 +6,7 @@
    matrices selected by the indices (first sentence of the property). *)
 From Coq Require Import ZArith List Lia Arith.
 Import ListNotations.
-Require Import Ring Sums Matrix Core Chain TTOps AddProof OpsProof.
+Require Import Ring Sums Matrix Core Chain TTOps AddProof OpsProof Sweep SweepProof TensordotProof NormProof.
 Open Scope cr_scope.
 
 (* t + u *)
@@ -108,3 +108,14 @@ Example ex_add_order2 :
   elem (tadd [ex_c1; ex_c2] [ex_c1; ex_c2]) [1%nat; 1%nat] [0%nat; 0%nat] =
   (elem [ex_c1; ex_c2] [1%nat; 1%nat] [0%nat; 0%nat] + elem [ex_c1; ex_c2] [1%nat; 1%nat] [0%nat; 0%nat]).
 Proof. vm_compute. reflexivity. Qed.
+
+(* norm(p=2): the code right-orthonormalises a copy (C03: the tensor is unchanged, the cores to the right of the first one
+   become right isometries) and returns numpy's norm of the first core.  For such a train the sum of |entry|^2 over ALL
+   entries equals the sum of |.|^2 over the first core: the radicand is the squared Euclidean norm of the tensor. *)
+Theorem C01_norm2_first_core (R : cring) (c : core R) (rest : list (core R)) :
+  Forall right_iso rest -> linked (c :: rest) 1%nat ->
+  dsum (rows (c :: rest)) (cols (c :: rest))
+       (fun xs ys => chain (c :: rest) xs ys 0%nat 0%nat * cconj R (chain (c :: rest) xs ys 0%nat 0%nat)) =
+  sum (md c) (fun x => sum (nd c) (fun y => sum (rr c) (fun b => g c 0%nat x y b * cconj R (g c 0%nat x y b)))).
+Proof. exact (norm2_from_first_core c rest). Qed.
+Print Assumptions C01_norm2_first_core.
